@@ -43,7 +43,7 @@ RULE = (
     "real urlsplit(ensure_protocol(url)) and the real split_suffix answer and must return the same "
     "stems, serialized LRU, unserialized list, 5-tuple handed to urlunsplit (captured by wrapping "
     "ural.lru.conversion.urlunsplit), final URL string (from stems and from the string), CPython "
-    ".hostname, cleaned stems, and the same verdicts of the specification predicates (wf, no-bar, "
+    ".hostname, and the same verdicts of the specification predicates (wf, no-bar, "
     "grammar host/port, expected round-trip tuple) as an independent Python implementation. "
     "Non-trivial = the URL has no '|', urlsplit accepts it and it is inside the grammar (wf); "
     "distinct = distinct (URL, modes)."
@@ -54,7 +54,7 @@ EXHAUSTIVE = {
 }
 TRUSTED = [
     "Lean 4 kernel; axioms of every listed theorem audited to be within {propext, Classical.choice, Quot.sound}",
-    "hand-written Lean model UralModel/Model/Lru.lean of ural/lru/{stems,serialization,conversion}.py (+ is_special_host, clean_trailing_path), tied to the code by differential execution on every run (stems, LRU string, unserialized list, the 5-tuple handed to urlunsplit, the final URL)",
+    "hand-written Lean model UralModel/Model/Lru.lean of ural/lru/{stems,serialization,conversion}.py (+ is_special_host), tied to the code by differential execution on every run (stems, LRU string, unserialized list, the 5-tuple handed to urlunsplit, the final URL)",
     "the two regexes are modelled by hand-written splitters; their pattern strings and the verdicts of the compiled regexes on a probe list are regenerated into Gen/LruPatterns.lean and re-checked by `decide` (table obligations), and the splitters are compared with re.split on every generated string",
     "CPython: urlsplit is outside the model (the model starts from the 5 components it returns); the theorems end at the 5-tuple handed to urlunsplit. The last step 'urlsplit(urlunsplit(t)) has the components of t' is a CPython fact, validated on every case by the oracle (real urlsplit of the real lru_to_url output) but not proved; urlunsplit and SplitResult.hostname are modelled by hand (Py/Split.lean) and compared with CPython on every case",
     "ASCII-exact model: str.lower and \\d are modelled on ASCII only; generators use non-ASCII characters on which lower() is the identity and no non-ASCII digits",
@@ -411,8 +411,6 @@ def _tuple_and_url(C, arg):
 
 def _impl_url(C, url, sa, A, split):
     from ural.lru import lru_stems, url_to_lru, serialize_lru, unserialize_lru
-    from ural.lru.trie import clean_trailing_path
-
     stems = lru_stems(url, suffix_aware=sa)
     lru = url_to_lru(url, suffix_aware=sa)
     tup, back = _tuple_and_url(C, list(stems))
@@ -428,7 +426,6 @@ def _impl_url(C, url, sa, A, split):
         "url": back,
         "url_from_str": back_s,
         "hostname": A.hostname or "",
-        "clean": list(clean_trailing_path(stems)),
         "wf": wf,
         "wf_sa": wf_host_sa(A[1]),
         "nobar": "|" not in "".join(t),
@@ -443,8 +440,7 @@ def _impl_url(C, url, sa, A, split):
 
 def impl(case):
     C = _conv()
-    from ural.lru import lru_stems, url_to_lru, serialize_lru, unserialize_lru
-    from ural.lru.trie import clean_trailing_path
+    from ural.lru import serialize_lru, unserialize_lru
 
     k = case["k"]
     if k == "url":
@@ -496,6 +492,9 @@ def raw_components(S):
     hostinfo = netloc.rpartition("@")[2]
     sp = spec_hostport(hostinfo)
     host, port = sp if sp is not None else (hostinfo, None)
+    if port == "":
+        # `host:` and `host` have the same port for urlsplit (.port is None): not distinguished
+        port = None
     return (S.scheme, S.username or "", S.password or "", host, port, S.path, S.query, S.fragment)
 
 
